@@ -593,11 +593,18 @@ def gen_case(rng, tier, strategy=None):
     dtype = rng.choice(["float64", "float64", "float32"])
     sigma0 = rng.choice([0.125, 0.5, 1.0, 2.5])
     x0 = [round(rng.uniform(-2, 2), 3) for _ in range(dim)]
-    layout = "none" if strategy == "openai_mirror" else rng.choice(["none", "scalar", "scalar", "vector", "vector", "mixed", "lower", "upper"])
+    layout = "none" if strategy == "openai_mirror" else rng.choice(["none", "scalar", "scalar", "vector", "vector", "mixed", "lower", "upper", "zero"])
     acc = rng.choice([0.9, 0.6, 0.35, 0.2])
     zq = _norm_q(acc ** (1.0 / dim))
     lb = ub = None
-    if layout == "scalar":
+    if layout == "zero":
+        # ONE scalar bound that is exactly zero (0.0 or -0.0), the other side unbounded
+        a0 = round(zq * sigma0 * rng.uniform(0.7, 1.3), 3) + 0.001
+        if rng.random() < 0.5:
+            x0, lb = [a0] * dim, rng.choice([0.0, -0.0])
+        else:
+            x0, ub = [-a0] * dim, rng.choice([0.0, -0.0])
+    elif layout == "scalar":
         x0 = [x0[0]] * dim
         lb, ub = x0[0] - zq * sigma0 * rng.uniform(0.7, 1.3), x0[0] + zq * sigma0 * rng.uniform(0.7, 1.3)
     elif layout in ("vector", "mixed", "lower", "upper"):
@@ -635,6 +642,8 @@ def gen_case(rng, tier, strategy=None):
         x1 = [round(rng.uniform(-1, 1), 3) for _ in range(dim)]
         if layout == "scalar":
             x1 = [(lb + ub) / 2] * dim
+        elif layout == "zero":
+            x1 = [sigma0 if lb is not None else -sigma0] * dim
         elif lb is not None or ub is not None:
             x1 = []
             for i in range(dim):
